@@ -130,7 +130,7 @@ def check_formula(run, key, fi, target, expected, why, alternatives=(), which=No
     if node is None:
         asg = assignments_to(fi.node, target)
         if which is not None:
-            asg = asg[which:which + 1] if -len(asg) <= which < len(asg) else []
+            asg = [asg[which]] if -len(asg) <= which < len(asg) else []
         if not asg:
             run.unknown(key, 'no assignment to %s found' % target, where=fi.where()); return False
         vals = [(a, a.value) for a in asg]
